@@ -44,7 +44,10 @@ func c17Inputs() []map[string]string {
 		"log.yaml":  "2021/01/24:\n  # " + lz + ": " + la + "\n  " + la + ": 1\n  r1: 1\n  " + lz + ": 2\n2021/01/25:\n  " + la + "/in/the/book: 2\n  m: 1\n",
 		"bad.yaml":  "x:\n  " + la + ":1\n  short: q\n  " + lz + ": q\n",
 	}
-	return []map[string]string{small, mid, big, long}
+	// a log without a single day, a book without a single recipe (what the commands print then is a report too)
+	noDays := map[string]string{"food.yaml": "r1:\n  cal: 2\n", "log.yaml": "# nothing logged yet\n\n", "bad.yaml": "x:\n  y:1\n"}
+	noRecipes := map[string]string{"food.yaml": "# no recipes yet\n", "log.yaml": "2021/01/24:\n  r1: 1\n  u: 2\n", "bad.yaml": "x:\n  y:1\n"}
+	return []map[string]string{small, mid, big, long, noDays, noRecipes}
 }
 
 func checkC17(w *Worker) {
